@@ -58,7 +58,17 @@ def check(env, rep, tier):
             obs = report_obligations(rep, "C04.4", I, include_cast=True)
             if cfg == "default" and mode == "some":
                 n_unsafe = sum(1 for o in obs if o["kind"].startswith("unsafe:"))
-                rep.floor("C04.4", "unsafe call sites covered (ptr::copy, ptr::add, set_len)", n_unsafe, 13)
+                # coverage, not a fixed number: every raw copy / pointer offset / set_len call site present in the
+                # serialiser's MIR must have been visited (removing unsafe code is not a violation)
+                present = 0
+                for bb_ in body["blocks"]:
+                    t_ = bb_["term"]
+                    if t_["k"] == "call" and not bb_.get("cleanup"):
+                        pth = (t_.get("resolved") or t_.get("callee") or {}).get("path", "")
+                        if pth in ("core::ptr::copy", "core::ptr::copy_nonoverlapping") or pth.endswith("::set_len") \
+                                or pth.startswith("core::ptr::mut_ptr::<impl *mut T>::add") or pth.startswith("core::ptr::const_ptr::<impl *const T>::add"):
+                            present += 1
+                rep.floor("C04.4", "unsafe call sites covered (ptr::copy, ptr::add, set_len)", n_unsafe, present)
             n_ok = 0
             for s, rv in res:
                 if not isinstance(rv, EnumV):
